@@ -448,7 +448,10 @@ def main(argv):
             # widened search for a concrete failing input on the implementation
             print('tie or proof broken: widening the search for a failing input ...')
             for famname, nq, nt_, size_q, size_t in cfg['families']:
-                r2 = run_family(famname, prop, max(nt_ // 4, nq * 3), size_t, seed + 7919, pool, with_corpus=False)
+                if tier == 'quick':
+                    r2 = run_family(famname, prop, nq * 3, size_q, seed + 7919, pool, with_corpus=False)
+                else:
+                    r2 = run_family(famname, prop, max(nt_ // 4, nq * 3), size_t, seed + 7919, pool, with_corpus=False)
                 violations += [(r2['family'], v) for v in r2['violations']]
                 mismatches += r2['mismatches'][:3]
                 if violations:
